@@ -959,9 +959,11 @@ func (p *PubSub) processLoop(ctx context.Context) {
 	for {
 		select {
 		case <-p.newPeers:
+			verifYield(verifLoopEvent)
 			p.handlePendingPeers()
 
 		case s := <-p.newPeerStream:
+			verifYield(verifLoopEvent)
 			pid := s.Conn().RemotePeer()
 
 			q, ok := p.peers[pid]
@@ -986,9 +988,11 @@ func (p *PubSub) processLoop(ctx context.Context) {
 			s.FirstMessage <- helloPacket
 
 		case pid := <-p.newPeerError:
+			verifYield(verifLoopEvent)
 			delete(p.peers, pid)
 
 		case <-p.peerDead:
+			verifYield(verifLoopEvent)
 			p.handleDeadPeers()
 
 		case treq := <-p.getTopics:
@@ -1035,6 +1039,7 @@ func (p *PubSub) processLoop(ctx context.Context) {
 			}
 			preq.resp <- peers
 		case in := <-p.incoming:
+			verifYield(verifLoopEvent)
 			switch in.kind {
 			case incomingKindRPC:
 				p.handleIncomingRPC(in.rpc)
